@@ -4,6 +4,7 @@ Endpoint creation from DBus address strings
 @author: Tom Cocagne
 """
 import os
+from urllib.parse import unquote
 
 from twisted.internet.endpoints import (
     TCP4ClientEndpoint,
@@ -84,7 +85,8 @@ def getDBusEndpoints(reactor, busAddress, client=True):
 
             if '=' in c:
                 k, v = c.split('=')
-                d[k] = v
+                # values are %-escaped in an address string
+                d[k] = unquote(v)
 
         if kind == 'unix':
             if 'path' in d:
